@@ -193,14 +193,21 @@ WRONG = {"bool": [3, "x", None, [True], 0], "int": ["4", None, True, [1], 1.5, {
          "dict": ["A", 3, None, True]}
 
 
-def fault(mode: int, k: int, i: int, w: int, also: bool) -> bool:
+# the same options given explicitly on the command line (argparse then yields e.g. a plain list for --pp_suffixes)
+CLI_GIVEN = vars(PARSER.parse_args(["--nthreads", "2", "--pp_suffixes", ".h", ".F90", "--source_dirs", "src", "--incl_suffixes", ".inc",
+                                    "--excl_suffixes", ".bak", "--excl_paths", "old", "--include_dirs", "inc", "--pp_defs", '{"A": "1"}',
+                                    "--hover_language", "fortran", "--max_line_length", "80", "--recursion_limit", "500",
+                                    "--max_comment_line_length", "90", "--incremental_sync", "--notify_init"]))
+
+
+def fault(mode: int, k: int, i: int, w: int, also: bool, given: bool) -> bool:
     """invalid configuration: user-visible message, every option keeps its command-line value, no exception
     pre: 0 <= mode <= 2 and 0 <= k < len(BAD_TOP) and 0 <= i < NOPT and 0 <= w <= 6 and i % NPART == PART
     post: _
     """
     tick("fault")
     mode = conc(mode, 0, 2)
-    srv = _mkserver(DEFAULTS)
+    srv = _mkserver(CLI_GIVEN if given else DEFAULTS)
     before = {d: _attr(srv, d, kk) for d, kk in OPTS}
     if mode == 0:  # syntax error reported by the JSON5 parser
         _J5.mode, _J5.value = 1, None
